@@ -168,4 +168,24 @@ example : run ⟨⟨[], none⟩, 0⟩ [] [.reopen "1.2.0", .put "a" 1, .put "a" 
   = [(some 2, some (2, 0), 0, 0), (none, some (2, 0), 0, 0), (none, some (2, 0), 0, 0), (none, some (3, 0), 5, 10),
      (none, some (2, 0), 0, 10)] := by decide
 
+/-- **Ids never alias**: under one prefix and one suffix two ids give one file name only when they are
+the same id - nothing of the id is cut off, folded or hashed away. -/
+theorem entryFile_injective (p s a b : String) (h : entryFile p a s = entryFile p b s) : a = b := by
+  unfold entryFile at h
+  have h' := congrArg String.toList h
+  simp only [String.toList_append] at h'
+  have h1 := List.append_cancel_right h'
+  have h2 := List.append_cancel_right h1
+  have h3 := List.append_cancel_left h2
+  exact String.toList_inj.mp h3
+
+/-- `Reader.mangle`: the id of an entry is a fixed-length digest of the location, a dash and the kind of entry:
+two kinds of entry for one location never share an id. -/
+theorem mangled_kinds_differ (digest k1 k2 : String) (h : digest ++ "-" ++ k1 = digest ++ "-" ++ k2) : k1 = k2 := by
+  have h' := congrArg String.toList h
+  simp only [String.toList_append] at h'
+  exact String.toList_inj.mp (List.append_cancel_left h')
+
+example : entryFile "suds" "0123-wsdl" "px" ≠ entryFile "suds" "0123-document" "px" := by decide
+
 end Suds.Props.C11
